@@ -377,23 +377,22 @@ def foldM' (f : Val → Val → Res) : Val → List Val → Res
     let acc' ← f acc v
     foldM' f acc' vs
 
+/-- `Sum`, `Max`, `Min` are defined on sequences of integers (the property's quantifier); anything
+    else, including booleans, is a type error, i.e. outside the claim. -/
 def sumInts : List Val → Except EErr Int
   | [] => .ok 0
-  | v :: vs => match asInt v with
-    | some i => do let r ← sumInts vs; pure (i + r)
-    | Option.none => .error (.type "Sum of non-integers")
+  | .int i :: vs => do let r ← sumInts vs; pure (i + r)
+  | _ :: _ => .error (.type "Sum of non-integers")
 
 def maxInts (acc : Int) : List Val → Except EErr Int
   | [] => .ok acc
-  | v :: vs => match asInt v with
-    | some i => maxInts (if acc > i then acc else i) vs
-    | Option.none => .error (.type "Max of non-integers")
+  | .int i :: vs => maxInts (if acc > i then acc else i) vs
+  | _ :: _ => .error (.type "Max of non-integers")
 
 def minInts (acc : Int) : List Val → Except EErr Int
   | [] => .ok acc
-  | v :: vs => match asInt v with
-    | some i => minInts (if acc < i then acc else i) vs
-    | Option.none => .error (.type "Min of non-integers")
+  | .int i :: vs => minInts (if acc < i then acc else i) vs
+  | _ :: _ => .error (.type "Min of non-integers")
 
 /-- Names with built-in sequence semantics (function form; method form of the `opNames` among
     them is the same clause with the receiver as first argument). -/
